@@ -139,9 +139,11 @@ def build_unit(u, scr, workdir, tier, trace=False, common_replace=()):
             '-I' + VERIF, '-I' + os.path.join(VERIF, 'env'),
             '-I' + os.path.join(VERIF, 'contracts')]
     defs = ['-DABT_VERIF', '-DHAVE_CONFIG_H'] + u.get('defines', [])
-    cap = u.get('timeout', 120)
+    # generous caps: a time-out is UNDECIDED (exit 2), and units run 16 at a
+    # time, so a loaded machine must not turn a 100 s proof into a time-out
+    cap = 3 * u.get('timeout', 120)
     if tier == 'thorough':
-        cap = u.get('timeout_thorough', max(cap, 600))
+        cap = max(cap, u.get('timeout_thorough', 900))
     entry = u['entry']
     cmd = ['goto-cc'] + incs + defs + ['--function', entry, src, '-o', gb]
     rc, out, err, s = sh(cmd, 120)
